@@ -159,6 +159,13 @@ pub fn run(variant: Variant, ops: &[HOp]) -> Result<Info, (String, String)> {
                     let new = match handles[i].as_ref().unwrap() {
                         Handle::Concrete(r) => {
                             let r2 = r.clone();
+                            // `interp_no_to_dyn`: control build that proves the crate compiles apart from the macro
+                            #[cfg(feature = "interp_no_to_dyn")]
+                            let converted: Result<Reference<dyn Cell64>, ()> = {
+                                let _ = r2;
+                                continue;
+                            };
+                            #[cfg(not(feature = "interp_no_to_dyn"))]
                             let converted = std::panic::catch_unwind(std::panic::AssertUnwindSafe(|| to_dyn!(Cell64, r2)));
                             match converted {
                                 Ok(d) => Handle::Dyn(d),
